@@ -53,6 +53,30 @@ def _grammar_partials():
 
 
 PARTIALS += [p for p in _grammar_partials() if p[0] not in set(x[0] for x in PARTIALS)]
+
+
+def _numeric_partials():
+    """two numbers only: month-day, day-month under dayfirst, year-month and month-year - the forms whose reading
+    follows from the values alone (a member above 31 is the year, a member above 12 cannot be the month)"""
+    import time as _time
+    from refs import parse_render as R
+    cur = _time.localtime().tm_year
+    y2 = lambda yy: R.expected_two_digit_year(yy, cur)
+    out = []
+    for sep in ('-', '/'):            # (a dot between two numbers reads as a decimal point)
+        for m, d in ((9, 25), (12, 31), (1, 31), (2, 13), (10, 13)):
+            out.append(('%02d%s%02d' % (m, sep, d), {'month': m, 'day': d}, None, {}))
+            out.append(('%02d%s%02d' % (d, sep, m), {'month': m, 'day': d}, None, {'dayfirst': True}))
+        for y, m in ((2003, 9), (1999, 12), (2032, 1), (1931, 10)):
+            out.append(('%04d%s%02d' % (y, sep, m), {'year': y, 'month': m}, None, {}))
+            out.append(('%02d%s%04d' % (m, sep, y), {'year': y, 'month': m}, None, {}))
+        for yy, m in ((99, 1), (32, 12), (50, 9), (76, 10)):
+            out.append(('%02d%s%02d' % (yy, sep, m), {'year': y2(yy), 'month': m}, None, {}))
+            out.append(('%02d%s%02d' % (m, sep, yy), {'year': y2(yy), 'month': m}, None, {}))
+    return out
+
+
+NUMERIC_PARTIALS = _numeric_partials()
 DEFAULTS = [D.datetime(2003, 1, 31, 1, 2, 3, 4), D.datetime(2003, 3, 30, 23, 59, 59, 999999), D.datetime(2004, 1, 29, 12, 0),
             D.datetime(2003, 1, 29, 0, 0), D.datetime(2003, 5, 31), D.datetime(2000, 2, 29, 6, 7, 8), D.datetime(2003, 9, 25, 10, 0),
             D.datetime(2003, 12, 28, 0, 0, 1), D.datetime(2003, 10, 31, 5), D.datetime(1900, 1, 30), D.datetime(2100, 3, 31),
@@ -86,11 +110,11 @@ def eval_defaults(default):
     warnings.simplefilter('ignore')
     viols = []
     n = 0
-    for text, fields, wd in PARTIALS:
+    for text, fields, wd, kw in [p + ({},) for p in PARTIALS] + NUMERIC_PARTIALS:
         n += 1
         exp = expected_default(default, fields, wd)
         try:
-            got = parser.parse(text, default=default)
+            got = parser.parse(text, default=default, **kw)
         except ValueError:
             got = 'ValueError'
         except OverflowError:
@@ -98,7 +122,7 @@ def eval_defaults(default):
         except Exception as e:
             got = 'EXC:' + type(e).__name__
         if got != exp:
-            viols.append({'kind': 'default-fill-in-wrong', 'text': text, 'default': default, 'got': got, 'expected': exp,
+            viols.append({'kind': 'default-fill-in-wrong', 'text': text, 'flags': kw, 'default': default, 'got': got, 'expected': exp,
                           'states_day': 'day' in fields, 'weekday': wd})
     return Res(trans=n, viols=viols[:5], sample={'default': default, 'texts': len(PARTIALS)} if default.day == 31 and default.month == 1 else None)
 
@@ -413,7 +437,7 @@ def run(ctx):
                 [((i, j, k), 4) for i in range(n) for j in range(n) for k in range(n)]
     ctx.explore('strict-implies-fuzzy', cases, 'eval_strict_implies_fuzzy', chunk=32)
     ctx.coverage_extra.update({
-        'bounds': {'partial_texts': len(PARTIALS), 'defaults': len(DEFAULTS), 'zone_texts': len(ZTEXTS), 'tzinfos_forms': 10,
+        'bounds': {'partial_texts': len(PARTIALS) + len(NUMERIC_PARTIALS), 'defaults': len(DEFAULTS), 'zone_texts': len(ZTEXTS), 'tzinfos_forms': 10,
                    'tz_envs': [str(e) for e in TZENVS], 'fuzzy_templates': len(FUZZY_TEMPLATES), 'fillers': len(FILLERS),
                    'token_depth': depth},
         'accepted_strict_texts': ctx.counts['accepted_strict'],
